@@ -1,7 +1,7 @@
 (* C09 - format produces one canonical layout and is idempotent; --check agrees.
    Statements only; proofs in Proofs/FormatProofs.v. *)
 From Coq Require Import String.
-From Verif Require Import Base.Str Base.Lines Base.Outcome Model.Patterns Model.ParseLine Model.Format Proofs.FormatProofs Proofs.FormatIdemProofs.
+From Verif Require Import Base.Str Base.Lines Base.Outcome Model.Patterns Model.ParseLine Model.Format Proofs.FormatProofs Proofs.FormatIdemProofs Proofs.FormatDefLineProofs.
 From Verif Require Import Gen.Consts.
 From Verif Require Tie.Pin_standard_header Tie.Pin_lits_cmd_regex_format_processLine
   Tie.Pin_lits_cmd_regex_format_formatEndOfFile Tie.Pin_lits_cmd_regex_format_checkStandardHeader
@@ -66,3 +66,24 @@ Theorem C09_lines_idempotent_example :
   process_lines ls 0 = [$"##!+ i"; $"##!^ \b"; $"##!> assemble"; $"  a|b"; $"  ##!=>"; $"  ##!> cmdline unix"; $"    ls@"; $"  ##!<"; $"  ##! note"; $"##!<"; $""].
 Proof. exact layout_idempotent_example. Qed.
 Print Assumptions C09_lines_idempotent_example.
+
+(* definition directives too: `##!> define NAME VALUE` as format prints it is read back with the
+   same name and value, so the printed line is a fixed point.  Line-level idempotence now holds for
+   every line that is not an include / include-except directive (those: per case only) *)
+Theorem C09_line_idempotent_but_includes_partial : forall line indent out next,
+  trim_left is_blank line = line -> not_an_include_directive line ->
+  process_line line indent = (Some out, next) ->
+  process_line (trim_left is_blank out) indent = (Some out, next).
+Proof. exact process_line_idempotent_but_includes. Qed.
+Print Assumptions C09_line_idempotent_but_includes_partial.
+
+Theorem C09_lines_idempotent_but_includes_partial : forall ls indent,
+  Forall (fun l => trim_left is_blank l = l /\ not_an_include_directive l) ls ->
+  process_lines (map (trim_left is_blank) (process_lines ls indent)) indent = process_lines ls indent.
+Proof. intros ls indent. now apply process_lines_idempotent_but_includes. Qed.
+Print Assumptions C09_lines_idempotent_but_includes_partial.
+
+Theorem C09_definition_line_example :
+  process_line $"##!>   define   sep-1 	[\s,;]+  " 2 = (Some $"    ##!> define sep-1 [\s,;]+", 2%nat) /\
+  m_definition $"##!>   define   sep-1 	[\s,;]+  " = Some ($"##!>   define   sep-1 	", $"sep-1", $"[\s,;]+").
+Proof. exact definition_line_example. Qed.
